@@ -47,6 +47,7 @@ pub fn configs(prop: &str) -> Vec<Config> {
             c("storage", 40_000, 1_500_000),
             c("text", 40_000, 1_500_000),
             c("shapes", 30_000, 1_000_000),
+            c("deep", 2_000, 20_000),
         ],
         "C11" => vec![c("backends", 8_000, 250_000), c("typed", 6_000, 150_000)],
         "C12" => vec![
